@@ -61,6 +61,10 @@ pub fn plan(prop: &str, tier: Tier) -> Option<Plan> {
             {
                 let mut v = sized_jobs("C04", if q { 48 } else { 160 }, if q { 6000 } else { 120_000 }, both);
                 v.extend(thin_jobs("C04", if q { 40 } else { 128 }, if q { 3000 } else { 60_000 }, both));
+                // assume_init is a count-neutral conversion too (shared uninitialised handles)
+                for e in eng::uninit::engines() {
+                    v.push(jobb(e, if q { 2000 } else { 40_000 }, "all"));
+                }
                 v
             },
         ),
